@@ -191,6 +191,14 @@ fn tohex(b: &[u8]) -> String {
 fn main() {
     let stdout = std::io::stdout();
     let mut out = std::io::BufWriter::new(stdout.lock());
+    // 0. before anything was published
+    {
+        let r = match std::panic::catch_unwind(LevelFilter::current) {
+            Ok(c) => idx_f(&c) as i64,
+            Err(_) => -1,
+        };
+        writeln!(out, "{{\"k\":\"current_initial\",\"r\":{}}}", r).unwrap();
+    }
     // 1. operators
     for (i, a) in LEVELS.iter().enumerate() {
         for (j, b) in LEVELS.iter().enumerate() {
@@ -226,6 +234,8 @@ fn main() {
         let f: LevelFilter = (*l).into();
         writeln!(out, "{{\"k\":\"level_into_filter\",\"a\":{},\"r\":{}}}", i + 1, idx_f(&f)).unwrap();
         writeln!(out, "{{\"k\":\"from_level\",\"a\":{},\"r\":{}}}", i + 1, idx_f(&LevelFilter::from_level(*l))).unwrap();
+        let fo: LevelFilter = Some(*l).into();
+        writeln!(out, "{{\"k\":\"from_option\",\"a\":{},\"r\":{}}}", i + 1, idx_f(&fo)).unwrap();
     }
     for lg in [log::Level::Error, log::Level::Warn, log::Level::Info, log::Level::Debug, log::Level::Trace] {
         writeln!(out, "{{\"k\":\"as_trace_level\",\"a\":{},\"r\":{}}}", lg as usize, idx_l(&lg.as_trace()) + 1).unwrap();
@@ -235,6 +245,13 @@ fn main() {
         writeln!(out, "{{\"k\":\"as_log_filter\",\"a\":{},\"r\":{}}}", i, f.as_log() as usize).unwrap();
         let il = f.into_level().map(|l| idx_l(&l) + 1).unwrap_or(0);
         writeln!(out, "{{\"k\":\"into_level\",\"a\":{},\"r\":{}}}", i, il).unwrap();
+        let ol: Option<Level> = (*f).into();
+        writeln!(out, "{{\"k\":\"into_option\",\"a\":{},\"r\":{}}}", i, ol.map(|l| idx_l(&l) + 1).unwrap_or(0)).unwrap();
+    }
+    {
+        let none: Option<Level> = None;
+        let fo: LevelFilter = none.into();
+        writeln!(out, "{{\"k\":\"from_option\",\"a\":0,\"r\":{}}}", idx_f(&fo)).unwrap();
     }
     for lg in [
         log::LevelFilter::Off,
